@@ -110,6 +110,7 @@ let choices (s : state) (sizes : int list) (kinds : item list list) (budget : in
     | WApp -> List.map (fun n -> CWApp (i', Some (z_of_int n), false)) sizes
               @ [CWApp (i', None, false); CWApp (i', None, true)]
     | WHwF _ | WWsF _ | WScF -> CW i' :: List.map (fun r -> CWSend (i', r)) (sends s errs)
+    | WSc1 -> [CW i'; CWSend (i', SErr)]
     | _ -> [CW i']) s.ws) in
   let env = if budget > 0 && not s.gone then List.map (fun k -> CClient k) kinds @ [CClientClose]
             else if not s.gone then [CClientClose] else [] in
@@ -162,6 +163,7 @@ let explore c nw maxsends sizes kinds maxstates errs =
              Wt<c> Wk<c> Nf<c> (c: o q) | Sd | Rv | Sel | Pull | AddTask | Write | Done |
              MapDel | Keep | Client | ClientClose
      arg   : Sd: ok<n> z d e    Rv: 10 | 01 | 00 (ok,eof)   Write: n   Done: 0|1   Keep: 0|1
+             ScAppend: 0|1 (a worker-side send_continue: did outbufs[-1].append raise?)
              Client: items
      snap  : "-" or wc,cwf,conn,total,nreq,ol,rl,closed,pulled,queue,pend   the real state after
              this event (and the thread-local code that follows it)
@@ -202,7 +204,7 @@ let trace c nw mode (evs : string list) : string =
     (match Hashtbl.find_opt qs k with Some q -> q | None -> let q = Queue.create () in Hashtbl.add qs k q; q) in
   Array.iter (fun (th, lab, arg, _) ->
     match lab with
-    | "Sd" | "Rv" | "Keep" -> Queue.add arg (qget th lab)
+    | "Sd" | "Rv" | "Keep" | "ScAppend" -> Queue.add arg (qget th lab)
     | "Write" -> Queue.add ("w" ^ arg) (qget th "App")
     | "Done" -> Queue.add ("d" ^ arg) (qget th "App")
     | _ -> ()) evs;
@@ -247,6 +249,10 @@ let trace c nw mode (evs : string list) : string =
                                (fun () -> pop th "App"))
                        | None -> None)
        | Some (WHwF _ | WWsF _ | WScF) -> send (function None -> CW i' | Some r -> CWSend (i', r))
+       | Some WSc1 -> (match peek th "ScAppend" with
+                       | Some "1" -> Some (CWSend (i', SErr), (fun () -> pop th "ScAppend"))
+                       | Some _ -> Some (CW i', (fun () -> pop th "ScAppend"))
+                       | None -> Some (CW i', nop))
        | Some _ -> Some (CW i', nop)) in
   let visible ls = List.map label_s (if attrs then ls else List.filter (fun l -> not (is_attr l)) ls) in
   let fire th ch popf labs =
@@ -277,7 +283,7 @@ let trace c nw mode (evs : string list) : string =
                                   | None -> raise (Mismatch "client step refused"))
         end
         else if lab = "Begin" then greedy th
-        else if lab = "Keep" then ()
+        else if lab = "Keep" || lab = "ScAppend" then ()
         else if (lab = "Rrq" || lab = "Wrq") &&
                 (match Hashtbl.find_opt pending th with Some (l :: _, _, _) -> l <> lab | _ -> true) then ()
         else begin
